@@ -1,12 +1,15 @@
 mod checks;
+mod asmcheck;
 mod choice;
 mod emu_common;
+mod families;
 mod emu_a64;
 mod emu_rv;
 mod emu_x86;
 mod fun_ast;
 mod gen_fun;
 mod gen_lin;
+mod gen_syntax;
 mod heapcheck;
 mod mach_axcut;
 mod mach_core;
@@ -47,6 +50,8 @@ fn main() {
     // the compiler's driver writes below the current directory
     std::env::set_current_dir(&scratch).expect("chdir");
     pipeline::install_panic_hook();
+    // the front end is recursive: give the workers room for deeply nested inputs
+    let _ = rayon::ThreadPoolBuilder::new().stack_size(64 << 20).build_global();
     let mut tier = match std::env::var("VERIF_TIER").as_deref() {
         Ok("thorough") => Tier::Thorough,
         _ => Tier::Quick,
@@ -85,6 +90,15 @@ fn main() {
             let file = rest.first().cloned().unwrap_or_else(|| usage());
             let file = if PathBuf::from(&file).is_absolute() { PathBuf::from(file) } else { root.join(file) };
             checks::run_replay(&ctx, &file)
+        }
+        "stage" => {
+            // fresh-process helper of C17: print every printable stage of one file
+            let text = std::fs::read_to_string(&rest[0]).unwrap_or_default();
+            match checks::c17::all_stages(&text) {
+                Ok(s) => print!("{s}"),
+                Err(e) => print!("ERROR {e}"),
+            }
+            0
         }
         "native" => {
             // debug helper: sccv native x <file.sc> args...
